@@ -12,7 +12,7 @@ kernels `gKerF`, `gKerB` (powers of `i`).  Here:
 * `toC_gKerF`, `toC_gKerB` — for the sizes 1, 2, 4 the driver's kernels are `exp(∓2πi n/M)`;
 * `PSum.ev` — the complex number a formal phase sum (`Fft.PSum`, the scalar type of the driver op `filtp`) denotes —
   preserves `0`, `+`, `·` (`PSum.ev_add`, `PSum.ev_mul`: induction over the list representation), maps `psumConj` to `conj`,
-  `pKerF M n`, `pKerB M n` to `exp(∓2πi n/M)` for *every* `M`, and `psumOfGRat g` to `GRat.toC g`.
+  `psumScalar.kerF M n`, `psumScalar.kerB M n` to `exp(∓2πi n/M)` for *every* `M`, and `psumOfGRat g` to `GRat.toC g`.
 -/
 
 set_option linter.unusedSimpArgs false
@@ -295,15 +295,17 @@ theorem evL_conj (l : List Term) :
 
 theorem ev_psumConj (a : PSum) : PSum.ev (psumConj a) = conj (PSum.ev a) := evL_conj a.terms
 
-theorem ev_pKerF (M : ℕ) (n : ℤ) : PSum.ev (pKerF M n) = kF M n := by
-  unfold pKerF kF
+theorem ev_pKerF (M : ℕ) (n : ℤ) : PSum.ev (psumScalar.kerF M n) = kF M n := by
+  unfold Scalar.kerF kF
+  show PSum.ev (PSum.turns _) = _
   rw [PSum.ev_turns]
   congr 1
   push_cast
   rfl
 
-theorem ev_pKerB (M : ℕ) (n : ℤ) : PSum.ev (pKerB M n) = kB M n := by
-  unfold pKerB kB
+theorem ev_pKerB (M : ℕ) (n : ℤ) : PSum.ev (psumScalar.kerB M n) = kB M n := by
+  unfold Scalar.kerB kB
+  show PSum.ev (PSum.turns _) = _
   rw [PSum.ev_turns]
   congr 1
   push_cast
